@@ -420,8 +420,16 @@ def run(ctx):
     gcases, gmeta = [], {}
     for gid in range(ngroups):
         top, finals, chains = gen_group(rnd, quick)
-        cs, raised = group_cases(gid, top, finals, chains)
         desc = {"finals": [str(f) for f in finals], "chains": [str(c) for c in chains]}
+        try:
+            cs, raised = group_cases(gid, top, finals, chains)
+        except Exception as ex:  # the model is total on these groups: an exception of the implementation is a disagreement
+            import traceback
+            tb = traceback.format_exc().strip().splitlines()
+            ctx.fail("groups", "g%d_raised" % gid, "implementation raised %r on a decay group the model handles (%s)" % (ex, tb[-3].strip() if len(tb) > 2 else ""),
+                     inp=desc, site="tf_pwa.particle topology functions", fingerprint="raised",
+                     failing_input=dict(desc, raised=repr(ex), where=tb[-4:]))
+            continue
         ctx.evaluations += len(cs)
         ctx.count("group_nfinal=%d" % len(finals))
         ctx.count("group_nchains=%d" % len(chains))
